@@ -269,10 +269,10 @@ LIST_OPS = ["list.after", "list.before", "list.between", "list.mask", "list.sort
 LIST_OPS += ["list.getitem_int", "list.iter", "list.from_dict", "list.empty", "list.df", "list.column", "list.to_numpy",
              "list.describe", "list.first_offset", "list.last_offset", "list.first_last_offset", "list.time_diff",
              "list.len", "list.repr", "list.cmp", "hold.head_offset", "hold.tail_offset", "bpm.current_bpm",
-             "bpm.snap_offsets", "bpm.to_timing_map", "bpm.ave_bpm", "list.cast"]
+             "bpm.snap_offsets", "bpm.to_timing_map", "bpm.ave_bpm", "list.cast", "list.iloc", "list.loc"]
 LISTLIKE = ("list.", "hold.", "bpm.")
-MAP_OPS = ["map.getitem", "map.metadata", "map.describe", "map.stack", "map.metadata_in_set", "map.describe_in_set"]
-SET_OPS = ["mapset.iter", "mapset.items", "mapset.getitem", "mapset.describe", "mapset.stack"]
+MAP_OPS = ["map.getitem", "map.metadata", "map.describe", "map.stack", "map.repr", "map.metadata_in_set", "map.describe_in_set"]
+SET_OPS = ["mapset.iter", "mapset.items", "mapset.getitem", "mapset.describe", "mapset.stack", "mapset.repr"]
 WRITERS = dict(osu="map", quaver="map", bms="map", sm="mapset")
 
 
@@ -367,6 +367,8 @@ def gen_step(rng, op, game):
         a = dict(rows=rng.randint(0, 3))
     elif op == "list.column":
         a = dict(i=rng.randrange(0, 16))
+    elif op in ("list.iloc", "list.loc"):
+        a = dict(a=rng.randint(0, 3), b=rng.randint(1, 8), fancy=rng.random() < 0.5)
     elif op in ("list.time_diff", "bpm.ave_bpm"):
         a = dict(last=rng.choice([None, None, 7000, 12345.5]))
     elif op == "list.cmp":
@@ -378,7 +380,7 @@ def gen_step(rng, op, game):
     elif op == "list.cast":
         a = dict(target=rng.choice(GAMES), literal=rng.random() < 0.4)
     elif op == "map.getitem":
-        a = dict(what=rng.choice(["hits", "holds", "bpms", "NoteList", "TimedList"]))
+        a = dict(what=rng.choice(["hits", "holds", "bpms", "NoteList", "TimedList", "p_hits", "p_holds", "p_bpms", "notes"]))
     elif op in ("map.metadata", "map.metadata_in_set"):
         a = dict(unicode=rng.random() < 0.5)
     elif op in ("map.describe", "mapset.describe", "map.describe_in_set"):
@@ -1163,6 +1165,16 @@ def prepare_call(step, pool):
         if op == "list.column":
             col = list(tl.df.columns)[a["i"] % len(tl.df.columns)]
             return [tl], (lambda: getattr(tl, col)), val
+        if op == "list.iloc":
+            if a["fancy"]:
+                ix = [i for i in range(a["a"], a["b"]) if i < len(tl)]
+                return [tl], (lambda: tl.iloc[ix]), val
+            return [tl], (lambda: tl.iloc[a["a"]:a["b"]]), val
+        if op == "list.loc":
+            labels = list(tl.df.index[a["a"]:a["b"]])
+            if a["fancy"] or not labels:
+                return [tl], (lambda: tl.loc[labels]), val
+            return [tl], (lambda: tl.loc[labels[0]:labels[-1]]), val
         if op == "list.to_numpy":
             return [tl], (lambda: tl.to_numpy()), val
         if op == "list.describe":
@@ -1296,8 +1308,14 @@ def prepare_call(step, pool):
             from reamber.base.lists.TimedList import TimedList
             from reamber.base.lists.notes.NoteList import NoteList
             w = a["what"]
+            if w == "notes":
+                return [m], (lambda: m.notes), val
+            if w.startswith("p_"):
+                return [m], (lambda: getattr(m, w[2:])), val
             cls = NoteList if w == "NoteList" else TimedList if w == "TimedList" else K(e["game"])["lists"][w]
             return [m], (lambda: m[cls]), val
+        if op == "map.repr":
+            return [m], (lambda: repr(m)), val
         if op in ("map.metadata", "map.describe", "map.metadata_in_set", "map.describe_in_set"):
             import contextlib
             import inspect
@@ -1349,6 +1367,8 @@ def prepare_call(step, pool):
             return [st], f, val
         if op == "mapset.stack":
             return [st], (lambda: st.stack()), val
+        if op == "mapset.repr":
+            return [st], (lambda: repr(st)), val
     if op.startswith("write_file."):
         import tempfile
         g = op.split(".")[1]
